@@ -24,6 +24,7 @@ import common  # noqa: E402
 VERIF = common.VERIF
 LEAN = os.path.join(VERIF, "lean")
 OUT = os.environ.get("VERIF_OUT", VERIF)     # evidence/replay root (scratch runs against seeded changes redirect it)
+SYMTIE_PIDS = {"C01", "C05", "C08", "C12", "C14", "C16", "C17", "C18", "C20"}
 STD_AXIOMS = {"propext", "Classical.choice", "Quot.sound"}
 FORBIDDEN = re.compile(r"\b(sorry|admit|native_decide|bv_decide|implemented_by|maxHeartbeats\s+0)\b|^\s*axiom\s|\bunsafe\s")
 
@@ -134,8 +135,17 @@ def _worker(args):
         except BaseException as e:
             if isinstance(e, KeyboardInterrupt):
                 raise
+    tie = pid in SYMTIE_PIDS
+    if tie:
+        import symtie
+        symtie.begin()
     try:
         r = common.guarded(timeout, mod.run_case, case)
+        if tie:
+            # the candidate loop of compute_attractors_symbolic, replayed on the Lean model
+            d2, t2, nt2 = common.guarded(timeout, symtie.finish)
+            r.setdefault("diffs", []).extend(d2)
+            r["tags"] = sorted(set(r.get("tags", [])) | t2)
     except common.Timeout:
         r = {"fails": [], "diffs": [], "timeout": True}
     except common.DriverError as e:
